@@ -280,6 +280,11 @@ class Gen:
             return [line], form, pos
         first = {"line2-shebang": "#!/usr/bin/env python3", "line2-comment": "# " + self.ascii_phrase(),
                  "line2-blank": ""}[pos]
+        if pos == "line2-comment" and self.seps:
+            # a character that str.splitlines() (but not the interpreter, nor bytes.splitlines()) takes for a
+            # line boundary, BEFORE the declaration: the declaration is still on line 2
+            first = "# " + self.ascii_phrase() + self.rnd.choice([x for x in self.seps if x < "\x7f"]) + " " + self.ascii_phrase()
+            self.sep_before_cookie = True
         return [first, line], form, pos
 
     def ascii_phrase(self):
@@ -518,6 +523,11 @@ class Case:
             # construct is the mechanism; where and how it surfaces (read / write / exception) is in the detail
             key = "enc|hdr=" + hz[0]
             what = HAZARD_WHAT[hz[0]] + " [first seen as: " + what[:120] + "]"
+        elif clause.startswith("refactor:organize") and any(sp in self.orig.decode("latin-1") for sp in SEPS[:4]):
+            # the import organiser cuts lines with str.splitlines(): a file with an ASCII separator character
+            # (FF/FS/GS/RS) gets lines merged or dropped; when that hits the declaration line the symptom is a
+            # re-encoded file instead of a changed line -- one mechanism, one key
+            key = "refactor:organize|untouched-line-changed:file-with-separator-char"
         else:
             key = f"{_clause_class(clause, label)}|{label}"
         detail["label"] = label
@@ -599,6 +609,8 @@ class Case:
             res.ev("files_with_line_separators")
         if spec["decoy"]:
             res.ev("files_with_decoy_cookie")
+        if getattr(g, "sep_before_cookie", False):
+            res.ev("files_with_separator_before_line2_cookie")
         plain = (not nonascii and spec["nl"] == "LF" and spec["final"] and spec["encv"] == "none")
         self.open_project()
 
